@@ -1588,3 +1588,396 @@ def r15(cx):
 
 
 RS.explanation += ' Added later (sibling and kernel-semantics rules): is_executable_file requires a regular file on both sides (R8); the simulated fork inherits what fork(2) inherits (R9); the simulated pipe() allocates nothing when it fails (R10); wait(-1) tells live children from awaited ones (R11); signals do not affect terminated processes (R12); open(O_CREAT) must not create directories (R6c, open finding). Added after the audit: a killed or stopped simulated process is not polled again (R13); kill() answers ESRCH for an awaited process (R14); the simulated chdir stores a normalised path (R15).'
+
+
+# ---------------------------------------------------------------------------------------
+# added after independent seeded changes (wave 3): `..` is resolved against the directory tree, never lexically
+VKERNEL = 'yash_env::system::r#virtual'
+VFS = VKERNEL + '::file_system::FileSystem::'
+_PATHISH = re.compile(r'Path|UnixStr|UnixString|Component|CStr|CString|Cow|\bstr\b|String|u8|\b[A-Z]\b')
+_SHRINK = re.compile(r'::(pop|pop_back|truncate)$')
+_COMP_NEXT = re.compile(r'::(next|next_back|nth|nth_back|last)$')
+
+
+def _kernel_bodies(F):
+    return {k: b for k, b in F.bodies.items() if VKERNEL in k and '::tests::' not in k and not k.endswith('::tests')}
+
+
+def _ref_root(du, l, depth=8):
+    """The local a reference temporary points into (`_5 = &mut new_path` -> new_path)."""
+    while depth:
+        depth -= 1
+        d = du.single_def(l)
+        if d is None or d[1] == 't' or d[2]['k'] != 'assign':
+            return l
+        rv = d[2]['rv']
+        if rv['k'] == 'ref':
+            l = rv['pl']['l']
+        elif rv['k'] == 'use' and ('cp' in rv['o'] or 'mv' in rv['o']):
+            l = Q.operand_place(rv['o'])['l']
+        else:
+            return l
+    return l
+
+
+def _lexical_dotdot_sites(F, b, du):
+    """Calls that shorten a pathname under construction (PathBuf::pop, pop/truncate of a list of components or bytes - not
+    of a list of inodes) inside a loop over unix_path::Components or under a test of a unix_path::Component: the LEXICAL
+    elimination of `..` (the tree walk of FileSystem::get pops inode handles instead)."""
+    nexts = [blk for blk, t in b.calls() if _COMP_NEXT.search(pp.callee(t).split(' [')[0])
+             and 'unix_path::Components' in (str(t['f'].get('self') or '') + pp.callee(t) + ' '.join(t.get('at') or []))]
+    out = []
+    for blk, t in b.calls():
+        at = t.get('at') or []
+        if not _SHRINK.search(pp.callee(t).split(' [')[0]) or not at or 'Inode' in at[0]:
+            continue
+        if not re.search(r'PathBuf|Vec|VecDeque|UnixString|String', at[0]):
+            continue
+        in_loop = any(blk in b.reachable(n) and n in b.reachable(blk) for n in nexts)
+        on_comp = any(org['k'] == 'discr' and re.match(r'&?(mut )?unix_path::Component<', org.get('ty') or '')
+                      for org, lab, e in Q.implied_conditions(F, b, du, blk))
+        if in_loop or on_comp:
+            out.append((blk, t))
+    return out
+
+
+def _path_taint(b, du, seeds, summ):
+    """Path-valued locals data-dependent on the seeds (assignments, calls - through the summaries of kernel functions -
+    and writes through a `&mut` receiver such as PathBuf::push)."""
+    T = set(seeds)
+    ok = lambda l: bool(_PATHISH.search(b.locals[l].get('ty') or ''))
+    changed = True
+    while changed:
+        changed = False
+        for i, j, s in b.stmts():
+            if s['k'] != 'assign' or s['lhs']['l'] in T:
+                continue
+            if any(p['l'] in T for p in Q.rvalue_places(s['rv'])) and ok(s['lhs']['l']):
+                T.add(s['lhs']['l'])
+                changed = True
+        for i, t in b.calls():
+            args = [Q.operand_local(a) for a in t['a']]
+            hot = [k for k, l in enumerate(args) if l is not None and l in T]
+            if not hot:
+                continue
+            sm = summ.get(pp.callee(t))
+            d = t['dest']['l']
+            if d not in T and ok(d) and (sm is None or any(k + 1 in sm['ret_from'] for k in hot)):
+                T.add(d)
+                changed = True
+            at = t.get('at') or []
+            if sm is None and at and at[0].startswith('&mut') and any(k > 0 for k in hot) and args[0] is not None:
+                r = _ref_root(du, args[0])
+                if r not in T and ok(r):
+                    T.add(r)
+                    changed = True
+    return T
+
+
+def _resolution_sinks(b, T, summ):
+    """Calls that hand a tainted pathname to the tree resolution: FileSystem::get / save, or a kernel function that passes
+    that parameter on to them."""
+    out = []
+    for blk, t in b.calls():
+        c = pp.callee(t)
+        args = [Q.operand_local(a) for a in t['a']]
+        if c in (VFS + 'get', VFS + 'save'):
+            if any(l in T for l in args[1:] if l is not None):
+                out.append((blk, t))
+        elif c in summ and c != b.fn:
+            if any(l is not None and l in T and (i + 1) in summ[c]['sink_params'] for i, l in enumerate(args)):
+                out.append((blk, t))
+    return out
+
+
+def lexical_path_summaries(F):
+    """Per function of the simulated kernel: which parameters reach the return value / the tree resolution, whether the
+    return value (or a `&mut` parameter) carries a lexically normalised pathname, and where such a pathname is resolved."""
+    KB = _kernel_bodies(F)
+    summ = {k: {'ret_from': set(), 'sink_params': set(), 'ret_lex': False, 'out_lex': set(), 'sites': [], 'lex_sinks': [], 'T': set()}
+            for k in KB}
+    dus = {k: Q.DefUse(b) for k, b in KB.items()}
+    for k, b in KB.items():
+        summ[k]['sites'] = _lexical_dotdot_sites(F, b, dus[k])
+    changed, rounds = True, 0
+    while changed and rounds < 12:
+        changed = False
+        rounds += 1
+        for k, b in KB.items():
+            du, s = dus[k], summ[k]
+            for p in range(1, b.argc + 1):
+                if not _PATHISH.search(b.locals[p].get('ty') or ''):
+                    continue
+                T = _path_taint(b, du, {p}, summ)
+                if 0 in T and p not in s['ret_from']:
+                    s['ret_from'].add(p)
+                    changed = True
+                if p not in s['sink_params'] and not k.startswith(VFS) and _resolution_sinks(b, T, summ):
+                    s['sink_params'].add(p)
+                    changed = True
+            seeds = set()
+            for blk, t in s['sites']:
+                l = Q.operand_local(t['a'][0])
+                if l is not None:
+                    seeds.update((l, _ref_root(du, l)))
+            for blk, t in b.calls():
+                c = pp.callee(t)
+                if c in summ and c != k:
+                    if summ[c]['ret_lex']:
+                        seeds.add(t['dest']['l'])
+                    for i in summ[c]['out_lex']:
+                        l = Q.operand_local(t['a'][i - 1]) if i - 1 < len(t['a']) else None
+                        if l is not None:
+                            seeds.add(_ref_root(du, l))
+            if not seeds:
+                continue
+            T = _path_taint(b, du, seeds, summ)
+            s['T'] = T
+            if 0 in T and not s['ret_lex']:
+                s['ret_lex'] = True
+                changed = True
+            for p in range(1, b.argc + 1):
+                if p in T and (b.locals[p].get('ty') or '').startswith('&mut') and p not in s['out_lex']:
+                    s['out_lex'].add(p)
+                    changed = True
+            s['lex_sinks'] = _resolution_sinks(b, T, summ)
+    return KB, summ, dus
+
+
+def _asserted_success_calls(F, body, du, blk):
+    """Calls whose success (Ok / Continue of `?` / Some) is implied at block blk."""
+    out = []
+    for org, lab, e in Q.implied_conditions(F, body, du, blk):
+        if org['k'] == 'discr' and lab in (('variant', 'Continue'), ('variant', 'Ok'), ('variant', 'Some')) and not org['pl'].get('p'):
+            t = Q.value_source(body, du, {'cp': org['pl']})
+            if t is not None:
+                out.append(t)
+    return out
+
+
+@RS.rule('C19.R16', 'K-TAINT', 'in the simulated kernel `..` is resolved against the directory tree, as in a real kernel (`nx/..` is ENOENT when '
+         '`nx` does not exist): a pathname shortened LEXICALLY on `..` never enters the tree resolution (FileSystem::get / save), and '
+         'the one reviewed lexical normalisation - the working directory stored by chdir - happens only after the operand was resolved')
+def r16(cx):
+    F = cx.F
+    KB, summ, dus = lexical_path_summaries(F)
+    cx.require(VFS + 'get' in KB and VFS + 'get::main' in KB, 'FileSystem::get (the tree resolution of the simulated kernel) not found')
+    resolvers = sorted(k for k, s in summ.items() if s['sink_params'])
+    cx.require(any(k.endswith('::resolve_existing_file') for k in resolvers) and any(k.endswith('::resolve_file') for k in resolvers),
+               'resolve_existing_file / resolve_file no longer pass their path parameter to FileSystem::get (anchor moved): %s' % resolvers)
+    cx.floor(len(resolvers), 8, 'kernel functions whose path parameter reaches FileSystem::get / save')
+    # (0) the tree resolution itself pops inode handles on `..`, never pathname components
+    tree_pops = 0
+    for k, b in KB.items():
+        if not k.startswith(VFS):
+            continue
+        for blk, t in summ[k]['sites']:
+            cx.violation(k, 'tree-resolution-lexical-dotdot', 'the tree resolution of the simulated kernel shortens a pathname on `..` instead '
+                         'of stepping to the parent inode: `nx/..` resolves although `nx` does not exist', loc=b.loc(t))
+        if k == VFS + 'get::main':
+            cx.fn(k)
+            tree_pops = len([1 for blk, t in b.calls() if _SHRINK.search(pp.callee(t)) and 'Inode' in ((t.get('at') or [''])[0])])
+            cx.site('%s: `..` steps back in the list of visited inodes (%d pop sites), a missing component is ENOENT before `..` is looked at'
+                    % (k, tree_pops))
+    # (1) no lexically normalised pathname is handed to the resolution
+    nsites = 0
+    for k in sorted(KB):
+        s, b = summ[k], KB[k]
+        if k.startswith(VFS):
+            continue
+        if s['sites'] or s['ret_lex'] or s['out_lex']:
+            cx.fn(k)
+        for blk, t in s['sites']:
+            nsites += 1
+            cx.site('%s: lexical `..` elimination (%s) at %s; result returned: %s; handed to the tree resolution: %s'
+                    % (k, pp.callee(t).split('::')[-1], b.loc(t), s['ret_lex'], bool(s['lex_sinks'])))
+        seen = set()
+        for blk, t in s['lex_sinks']:
+            short = pp.callee(t).split('::')[-1]
+            if short in seen:
+                continue
+            seen.add(short)
+            cx.violation(k, 'lexical-dotdot-into-resolution:%s' % short, 'a pathname from which `..` (and the component before it) was removed '
+                         'lexically is handed to %s: `nx/..` collapses to the directory itself although `nx` does not exist, so stat / open / '
+                         'opendir succeed where a real kernel answers ENOENT (`echo nx/../*` expands to names that do not exist; '
+                         '`link/..` names the parent of the link, not of its target)' % pp.callee(t), loc=b.loc(t))
+    cx.require(nsites >= 1, 'no lexical normalisation left in the simulated kernel (the chdir normalisation C19.R15 demands is the reviewed one)')
+    # (2) a lexically normalised pathname is stored as the working directory only after the operand resolved
+    STORE = VKERNEL + '::process::Process::chdir'
+    for k in sorted(KB):
+        s, b = summ[k], KB[k]
+        if not s['T']:
+            continue
+        du = dus[k]
+        stores = [(blk, t) for blk, t in Q.find_calls(b, [STORE]) if any(Q.operand_local(a) in s['T'] for a in t['a'][1:])]
+        stores += [(blk, st) for blk, j, st in b.stmts() if st['k'] == 'assign'
+                   and any(isinstance(x, dict) and x.get('f') == 'cwd' for x in (st['lhs'].get('p') or []))
+                   and any(p['l'] in s['T'] for p in Q.rvalue_places(st['rv']))]
+        for blk, node in stores:
+            ok = [t for t in _asserted_success_calls(F, b, du, blk)
+                  if pp.callee(t) in (VFS + 'get',) or summ.get(pp.callee(t), {}).get('sink_params')]
+            cx.site('%s: lexically normalised working directory stored at %s after a successful resolution: %s'
+                    % (k, b.loc(node), sorted({pp.callee(t).split('::')[-1] for t in ok}) or False))
+            if not ok:
+                cx.violation(k, 'lexical-cwd-without-resolution', 'the working directory is computed lexically and stored without the operand '
+                             'having been resolved in the directory tree first: `cd nx/..` (or `cd file/..`) succeeds in the simulator and '
+                             'fails with ENOENT / ENOTDIR on a real kernel', loc=b.loc(node))
+
+
+# ---------------------------------------------------------------------------------------
+# added after an independent seeded change (wave 3): SIGCONT resumes whatever the disposition and the mask
+VPROC = VKERNEL + '::process::Process::'
+SIGNUM = 'yash_env::signal::Number'
+
+
+def _is_termination_test(F, body, du, org, depth=2):
+    """The condition looks at the process state (is_alive / is_stopped / a match over ProcessState or ProcessResult)."""
+    if org['k'] == 'call' and Q.callee_is(org['t'], ['yash_env::job::ProcessState::is_alive', 'yash_env::job::ProcessResult::is_stopped',
+                                                     'yash_env::job::ProcessState::is_stopped']):
+        return True
+    if org['k'] == 'discr' and ('ProcessState' in (org.get('ty') or '') or 'ProcessResult' in (org.get('ty') or '')):
+        return True
+    if org['k'] == 'place' and depth and not org['pl'].get('p'):
+        for blk, idx, node in du.defs.get(org['pl']['l'], []):
+            for o2, lab2, e2 in Q.implied_conditions(F, body, du, blk):
+                if _is_termination_test(F, body, du, o2, depth - 1):
+                    return True
+    return False
+
+
+def _signal_const(du, operand):
+    """Name of the signal constant an operand denotes (`&SIGCONT`, `SIGCONT`), else None."""
+    org = du.origin(operand)
+    for _ in range(4):
+        if org['k'] == 'ref' and not org['pl'].get('p'):
+            org = du.origin_place(org['pl'])
+            continue
+        break
+    if org['k'] == 'const':
+        name = str(org['o'].get('cdef') or '')
+        m = re.search(r'::(SIG[A-Z0-9]+)$', name)
+        return m.group(1) if m else None
+    return None
+
+
+def _is_signal_operand(body, du, operand, sig_locals):
+    l = Q.operand_local(operand)
+    if l is None:
+        return False
+    return l in sig_locals or _ref_root(du, l) in sig_locals
+
+
+def _edges_excluded_for(F, body, du, sig_locals, signame):
+    """Switch edges that cannot be taken when the signal parameter is `signame`: outcomes of `signal == SIGX` / `signal != SIGX`."""
+    out = set()
+    for u in body.live_blocks():
+        ec = Q.edge_condition(F, body, du, u)
+        if not ec:
+            continue
+        org, labels = ec
+        if org['k'] != 'call' or not re.search(r'PartialEq(<.*>)?>?::(eq|ne)$', pp.callee(org['t']).split(' [')[0]):
+            continue
+        a = org['t']['a']
+        if len(a) != 2:
+            continue
+        consts = [_signal_const(du, x) for x in a]
+        sigs = [_is_signal_operand(body, du, x, sig_locals) for x in a]
+        if not ((consts[0] and sigs[1]) or (consts[1] and sigs[0])):
+            continue
+        value = ((consts[0] or consts[1]) == signame)
+        if pp.callee(org['t']).split(' [')[0].endswith('::ne'):
+            value = not value
+        for tgt, labs in labels.items():
+            if labs and all(lab == ('bool', not value) for lab in labs):
+                out.add((u, tgt))
+    return out
+
+
+def _resume_skipping_path(F, fn, starts_from_guard, depth=3):
+    """A path through Process method `fn`, feasible for signal == SIGCONT, that returns without set_state(Running) - directly
+    or in a Process method the signal is handed to. None if every such path resumes. -> (body, path) | None"""
+    body = F.bodies.get(fn)
+    if body is None:
+        return ('no-body', None)
+    body = F.inlined(body)          # private helpers of the module (deliver_signal, predicates over the signal) seen in place
+    sig_locals = {p for p in range(1, body.argc + 1) if body.locals[p].get('ty') == SIGNUM}
+    if len(sig_locals) != 1:
+        return (body, [0])
+    du = Q.DefUse(body)
+    # plain copies of the parameter
+    for blk, j, st in body.stmts():
+        if st['k'] == 'assign' and st['rv']['k'] == 'use' and not st['lhs'].get('p') and Q.operand_local(st['rv']['o']) in sig_locals \
+                and not (Q.operand_place(st['rv']['o']) or {}).get('p') and du.single_def(st['lhs']['l']) is not None:
+            sig_locals = sig_locals | {st['lhs']['l']}
+    through = set()
+    for blk, t in body.calls():
+        c = pp.callee(t)
+        if c == VPROC + 'set_state':
+            org = du.origin(t['a'][1]) if len(t['a']) > 1 else {'k': 'unknown'}
+            if org['k'] == 'agg' and org['rv'].get('variant') == 'Running' and 'ProcessState' in str(org['rv'].get('adt')):
+                through.add(blk)
+        elif c.startswith(VPROC) and c != fn and depth and any(_is_signal_operand(body, du, a, sig_locals) for a in t['a']) \
+                and F.bodies.get(c) is not None and any(body2_ty == SIGNUM for body2_ty in
+                                                        [F.bodies[c].locals[p].get('ty') for p in range(1, F.bodies[c].argc + 1)]):
+            if _resume_skipping_path(F, c, False, depth - 1) is None:
+                through.add(blk)
+    starts = [0]
+    if starts_from_guard:
+        sites = [blk for blk, t in body.calls() if pp.callee(t) in (VPROC + 'set_state', VPROC + 'deliver_signal')]
+        g = set()
+        for blk in sites:
+            for org, lab, e in Q.implied_conditions(F, body, du, blk):
+                if e[0] != e[1] and _is_termination_test(F, body, du, org):
+                    g.add(e)
+        # the outermost guard edges: those not themselves behind another guard edge
+        outer = {e for e in g if not any(e2 != e and Q.edge_dominates(body, e2[0], e2[1], e[0]) for e2 in g)}
+        if outer:
+            starts = sorted({e[1] for e in outer})
+    p = Q.must_pass(body, starts, through, removed_edges=_edges_excluded_for(F, body, du, sig_locals, 'SIGCONT'))
+    return None if p is None else (body, p)
+
+
+@RS.rule('C19.R17', 'K-PASS', 'SIGCONT continues a stopped simulated process whatever its disposition and signal mask, as a real kernel does '
+         '(XSH 2.4.3): once raise_signal has found the process not terminated, every path the signal SIGCONT can take to the return - '
+         'blocked, ignored, caught or default - passes set_state(Running)')
+def r17(cx):
+    F = cx.F
+    fn = VPROC + 'raise_signal'
+    body = F.body(fn)
+    cx.fn(fn)
+    cx.require(F.bodies.get(VPROC + 'set_state') is not None, 'Process::set_state not found')
+    du = Q.DefUse(body)
+    sig = [p for p in range(1, body.argc + 1) if body.locals[p].get('ty') == SIGNUM]
+    cx.require(len(sig) == 1, 'raise_signal no longer takes one signal::Number')
+    # anchor: the resume exists somewhere below raise_signal
+    resumes = []
+    for k, b in F.bodies.items():
+        if k.startswith(VPROC) and '::tests' not in k:
+            d2 = Q.DefUse(b)
+            for blk, t in Q.find_calls(b, [VPROC + 'set_state']):
+                org = d2.origin(t['a'][1]) if len(t['a']) > 1 else {'k': 'unknown'}
+                if org['k'] == 'agg' and org['rv'].get('variant') == 'Running':
+                    resumes.append((b, t))
+    tests = _edges_excluded_for(F, body, du, set(sig), 'SIGCONT')
+    res = _resume_skipping_path(F, fn, True)
+    cx.site('%s: set_state(Running) sites in Process: %s; comparisons of the signal with a named signal pruned for SIGCONT: %d edges; '
+            'every SIGCONT path from the not-terminated edge resumes: %s'
+            % (fn, [b.loc(t) for b, t in resumes], len(tests), res is None))
+    if not resumes:
+        cx.violation(fn, 'sigcont-never-resumes', 'no Process method sets the state back to Running: a stopped simulated process can never be '
+                     'continued by SIGCONT', loc=body.loc(body.d))
+        return
+    if res is not None:
+        b, p = res
+        cx.require(b != 'no-body', 'body of a Process method missing')
+        calls = [pp.callee(b.term(x)).split('::')[-1] for x in p if b.term(x)['k'] == 'call' and pp.callee(b.term(x)).startswith(VPROC)]
+        cx.violation(fn, 'sigcont-resume-skippable', 'a SIGCONT sent to a stopped, not terminated simulated process can reach the return of '
+                     'raise_signal without set_state(Running) (via %s): the resume depends on the disposition or the mask of the signal, so a '
+                     'stopped child that ignores or traps CONT stays stopped after `kill -CONT` and the parent\'s `wait` / `fg` hangs, while a real '
+                     'kernel continues the process whatever the disposition' % (', '.join(calls) or 'a direct path'),
+                     loc=b.loc(b.term(p[min(len(p) - 1, 1)])), path=Q.render_path(b, p))
+
+
+RS.explanation += (' Added in wave 3: `..` is resolved against the simulated directory tree - no lexically shortened pathname reaches '
+                   'FileSystem::get/save and chdir normalises only after resolving (R16, shared as C05.R6); SIGCONT resumes a stopped '
+                   'process on every path through raise_signal/deliver_signal, whatever the disposition and mask (R17).')
